@@ -218,7 +218,7 @@ class TBRiROAS():
       causal_effect = self.tbr_cost.causal_effect(periods)
       report = pd.DataFrame(index=[causal_effect.index[-1]])
       report.index.name = 'date'
-      report['estimate'] = np.mean(sims_iroas)
+      report['estimate'] = np.median(sims_iroas)
       report['precision'] = report['estimate'] - ci_lower
       report['lower'] = ci_lower
       if tails == 1:
